@@ -6,7 +6,7 @@ LEVEL = "proof"
 
 def nontrivial(pio):
     """a precondition task was parked at least once and some precondition task was launched by a later fill"""
-    parked = any("words" in r and any(x.endswith("n") for w in r["words"] for q in w["q"] for x in q) for r in pio)
+    parked = any("words" in r and any(x.endswith("n") for w in r["words"].values() for q in w["q"] for x in q) for r in pio)
     launched = any(r.get("launched") for r in pio)
     return parked and launched
 
